@@ -122,18 +122,18 @@ Proof.
 Qed.
 
 (* searches with a metadata filter (search_similar_filtered / search_filtered_in_collection, any
-   strategy): an exact search over the stored vectors that match the filter -- C06_exact_topk applies
+   strategy, any oversample factor): an exact search over the stored vectors that match the filter -- C06_exact_topk applies
    with d := those vectors -- or, with a valid cached index, index candidates restricted to them *)
-Theorem C06_filtered_search_path : forall maxd ops t c q k b strat,
+Theorem C06_filtered_search_path : forall maxd ops t c q k b strat ovs,
   let s := run gen_invalidates gen_keep gen_eps_bits gen_thr_num gen_thr_den maxd [] ops in
-  match filtered_path gen_cached_dim_guard maxd gen_post_filter_fallback s t c q k b strat with
+  match filtered_path gen_cached_dim_guard maxd gen_post_filter_fallback s t c q k b strat ovs with
   | FExact m => m = matching t c b (data (cget s c))
   | FCachedOrExact snap m => snap = data (cget s c) /\ m = matching t c b (data (cget s c))
   | FErr _ | FEmpty => True
   | _ => False
   end.
 Proof.
-  intros maxd ops t c q k b strat. rewrite gen_dim_guard, gen_fallback. apply filtered_path_sound.
+  intros maxd ops t c q k b strat ovs. rewrite gen_dim_guard, gen_fallback. apply filtered_path_sound.
   exact (cache_discipline gen_invalidates gen_keep gen_eps_bits gen_thr_num gen_thr_den maxd
            gen_all_invalidate ops [] (CacheInv_init)).
 Qed.
